@@ -11,7 +11,7 @@ Open Scope Z_scope.
    with the arguments on the stack, halts with exactly that value on the stack, respectively faults. *)
 Theorem C14_compile_correct : forall p f vs n,
   match run_src n p f vs with
-  | Ok v => exists m, run_tgt (compile_program p) m (entry p f) vs = THalt [v]
+  | Ok rs => exists m, run_tgt (compile_program p) m (entry p f) vs = THalt rs
   | Fault => exists m, run_tgt (compile_program p) m (entry p f) vs = TFault
   | _ => True
   end.
@@ -22,7 +22,7 @@ Print Assumptions C14_compile_correct.
 Theorem C14_compile_correct_any_fuel : forall p f vs n m t,
   run_tgt (compile_program p) m (entry p f) vs = t -> t <> TTimeout ->
   match run_src n p f vs with
-  | Ok v => t = THalt [v]
+  | Ok rs => t = THalt rs
   | Fault => t = TFault
   | _ => True
   end.
@@ -31,7 +31,7 @@ Print Assumptions C14_compile_correct_any_fuel.
 
 (* the compiled code fails exactly when the source does *)
 Theorem C14_fault_iff : forall p f vs n m t,
-  (run_src n p f vs = Fault \/ exists v, run_src n p f vs = Ok v) ->
+  (run_src n p f vs = Fault \/ exists rs, run_src n p f vs = Ok rs) ->
   run_tgt (compile_program p) m (entry p f) vs = t -> t <> TTimeout ->
   (t = TFault <-> run_src n p f vs = Fault).
 Proof. exact compile_fault_iff. Qed.
@@ -41,8 +41,8 @@ Print Assumptions C14_fault_iff.
    untouched, the machine ends up at a RET with the value pushed *)
 Theorem C14_call_simulation : forall p f vs s K n,
   match call n p f vs with
-  | Ok v => exists qr L A, nth_error (compile_program p) qr = Some IRet /\
-              star (compile_program p) (St (entry p f) [] [] (vs ++ s) K) (St qr L A (v :: s) K)
+  | Ok rs => exists qr L A, nth_error (compile_program p) qr = Some IRet /\
+              star (compile_program p) (St (entry p f) [] [] (vs ++ s) K) (St qr L A (rs ++ s) K)
   | Fault => goes_wrong (compile_program p) (St (entry p f) [] [] (vs ++ s) K)
   | _ => True
   end.
@@ -62,28 +62,33 @@ Print Assumptions C14_source_deterministic.
 
 (* the code of every function sits at its entry point, code size does not depend on placement *)
 Theorem C14_program_layout : forall p f fn, nth_error p f = Some fn ->
-  code_at (compile_program p) (entry p f) (compile_func (entry p) (entry p f) fn).
+  code_at (compile_program p) (entry p f) (compile_func (entry p) (nres p) (entry p f) fn).
 Proof. exact program_layout. Qed.
 Print Assumptions C14_program_layout.
 
 (* non-vacuity: a program with a three-clause loop, continue, break, short-circuit operators, an op-assignment,
-   a call and recursion; one run returns a value, one divides by zero *)
-Definition C14_ex_main : func := {| f_params := [0%N; 1%N]; f_body :=
+   a call and recursion, a function with three results bound by a multiple assignment with a blank target;
+   one run returns a value, one divides by zero *)
+Definition C14_ex_main : func := {| f_params := [0%N; 1%N]; f_nres := 1; f_body :=
   SSeq (SDecl 2%N (ELit 0))
   (SSeq (SFor (SDecl 3%N (ELit 0)) (EBin Lt (EVar 3%N) (EVar 0%N)) (SInc 3%N)
           (SSeq (SIf (EBin Eq (EVar 3%N) (ELit 2)) SContinue)
           (SSeq (SIf (EAnd (EBin Gt (EVar 3%N) (ELit 7))
                            (EParen (EOr (EBin Gt (EVar 1%N) (ELit 3)) (EBin Eq (EVar 0%N) (ELit 2))))) SBreak)
                 (SOpAssign 2%N Add (EBin Mul (EVar 3%N) (EParen (EBin Sub (EVar 0%N) (EVar 1%N))))))))
-        (SReturn (EBin Add (EVar 2%N) (EBin Div (ECall 1 [ELit 3]) (EVar 1%N))))) |}.
-Definition C14_ex_fact : func := {| f_params := [0%N]; f_body :=
-  SSeq (SIf (EBin Le (EVar 0%N) (ELit 1)) (SReturn (ELit 1)))
-       (SReturn (EBin Mul (EVar 0%N) (ECall 1 [EBin Sub (EVar 0%N) (ELit 1)]))) |}.
-Definition C14_ex : program := [C14_ex_main; C14_ex_fact].
+        (SSeq (SCallAssign true [Some 4%N; None; Some 5%N] 2 [EVar 2%N; EVar 0%N])
+        (SReturn [EBin Add (EBin Add (EVar 2%N) (EBin Div (ECall 1 [ELit 3]) (EVar 1%N))) (EBin Sub (EVar 4%N) (EVar 5%N))]))) |}.
+Definition C14_ex_fact : func := {| f_params := [0%N]; f_nres := 1; f_body :=
+  SSeq (SIf (EBin Le (EVar 0%N) (ELit 1)) (SReturn [ELit 1]))
+       (SReturn [EBin Mul (EVar 0%N) (ECall 1 [EBin Sub (EVar 0%N) (ELit 1)])]) |}.
+(* three results: x+y, a flag, x-y *)
+Definition C14_ex_three : func := {| f_params := [0%N; 1%N]; f_nres := 3; f_body :=
+  SReturn [EBin Add (EVar 0%N) (EVar 1%N); EBin Lt (EVar 0%N) (EVar 1%N); EBin Sub (EVar 0%N) (EVar 1%N)] |}.
+Definition C14_ex : program := [C14_ex_main; C14_ex_fact; C14_ex_three].
 
 Example C14_example_value :
-  run_src 200 C14_ex 0 [VInt 12; VInt 5] = Ok (VInt 183) /\
-  run_tgt (compile_program C14_ex) 2000 (entry C14_ex 0) [VInt 12; VInt 5] = THalt [VInt 183].
+  run_src 200 C14_ex 0 [VInt 12; VInt 5] = Ok [VInt 207] /\
+  run_tgt (compile_program C14_ex) 2000 (entry C14_ex 0) [VInt 12; VInt 5] = THalt [VInt 207].
 Proof. split; vm_compute; reflexivity. Qed.
 
 Example C14_example_fault :
@@ -93,5 +98,5 @@ Proof. split; vm_compute; reflexivity. Qed.
 
 (* an integer leaving 64 bits is undefined in the source semantics: the theorems say nothing about such runs *)
 Example C14_example_overflow_undefined :
-  run_src 50 [{| f_params := [0%N]; f_body := SReturn (EBin Mul (EVar 0%N) (EVar 0%N)) |}] 0 [VInt (2 ^ 32)] = Undef.
+  run_src 50 [{| f_params := [0%N]; f_nres := 1; f_body := SReturn [EBin Mul (EVar 0%N) (EVar 0%N)] |}] 0 [VInt (2 ^ 32)] = Undef.
 Proof. vm_compute; reflexivity. Qed.
